@@ -2,11 +2,13 @@
 # Run every registered quick (or $1) check at the given seeds; print one line per run.
 tier="${1:-quick}"; shift
 seeds="${*:-1}"
+worst=0
 cd "$(dirname "$0")/.."
 for s in $seeds; do
   for i in 01 02 03 04 05 06 07 08 09 10 11 12 13 14 15 16 17 18 19 20; do
     out=$(VERIF_SEED=$s ./check C$i $tier 2>&1); rc=$?
     echo "seed=$s rc=$rc $(echo "$out" | grep -v KNOWN-FINDING | tail -1 | cut -c1-160)"
-    [ $rc -ne 0 ] && echo "$out" | grep -E "failure|VIOLATION|HARNESS" | head -3
+    if [ $rc -ne 0 ]; then worst=$rc; echo "$out" | grep -E "failure|VIOLATION|HARNESS" | head -3; fi
   done
 done
+exit $worst
